@@ -114,9 +114,18 @@ func (c Cfg) Val(n uint64) interface{} {
 		return []byte(strconv.FormatUint(n, 10))
 	case "str":
 		return strconv.FormatUint(n, 10)
+	case "ptr":
+		v := n
+		return &v // a fresh pointer every time: equality must be by pointee
+	case "iface":
+		// as encoding/json decodes it: an interface holding a slice (uncomparable with ==)
+		return IV{X: []interface{}{strconv.FormatUint(n, 10)}}
 	}
 	panic("bad val kind")
 }
+
+// IV is a value type with an interface-typed field.
+type IV struct{ X interface{} }
 
 func (c Cfg) ValNat(v interface{}) uint64 {
 	switch x := v.(type) {
@@ -134,6 +143,14 @@ func (c Cfg) ValNat(v interface{}) uint64 {
 			panic(err)
 		}
 		return n
+	case *uint64:
+		return *x
+	case IV:
+		n, err := strconv.ParseUint(x.X.([]interface{})[0].(string), 10, 64)
+		if err != nil {
+			panic(err)
+		}
+		return n
 	}
 	panic(fmt.Sprintf("bad val %T", v))
 }
@@ -146,6 +163,10 @@ func (c Cfg) ValuesLike() interface{} {
 		return []byte{}
 	case "str":
 		return ""
+	case "ptr":
+		return (*uint64)(nil)
+	case "iface":
+		return IV{}
 	}
 	panic("bad val kind")
 }
